@@ -25,6 +25,10 @@ pub mod effectlog {
     }
     /// how many effects of kind `k` were added between `a` and `b`
     pub open spec fn delta(a: Seq<Effect>, b: Seq<Effect>, k: Kind) -> int { cnt(b, k) - cnt(a, k) }
+    /// between `a` and `b` no effect of any kind other than the listed ones was added
+    pub open spec fn no_other_effects(a: Seq<Effect>, b: Seq<Effect>, x1: Kind, x2: Kind, x3: Kind, x4: Kind) -> bool {
+        forall|k: Kind| k != x1 && k != x2 && k != x3 && k != x4 ==> #[trigger] cnt(b, k) == cnt(a, k)
+    }
     pub broadcast proof fn lemma_cnt_push(s: Seq<Effect>, e: Effect, k: Kind)
         ensures #[trigger] cnt(s.push(e), k) == cnt(s, k) + (if kind_of(e) == k { 1nat } else { 0nat }),
     {
